@@ -38,14 +38,17 @@ Definition with_cursor (s : db) (k : N) : db :=
      d_cursor := Some k; d_wal := d_wal s; acked := acked s |}.
 
 Inductive routcome :=
-| RHang                 (* the loader thread of Storage::recover panicked on an unreadable file;
-                           rx.iter().take(n) waits for a message that never comes: finding F8 *)
+| RFail                 (* Storage::recover cannot load a file of wal/ (envelope check fails): since
+                           commit b430922 it panics with "Failed to load WAL segment <path>", before
+                           that the loader thread panicked and recover waited forever on
+                           rx.iter().take(n) - either way LocustDB::new does not return a database:
+                           finding F8 *)
 | ROut (r : res db).
 
 (* InnerLocustDB::new on the directory [d] *)
 Definition recover_c (c : cfg) (d : cdisk) : routcome :=
   match cd_tmp d with
-  | Some TmpPartial => RHang
+  | Some TmpPartial => RFail
   | Some (TmpWhole id sg) =>
       (* a completely written temp file deserialises like a segment and is treated as one *)
       ROut (recover c (with_wal (cd_db d) (d_wal (cd_db d) ++ [(id, sg)])))
